@@ -497,3 +497,261 @@ class C12(ScanProperty):
 
 
 ALL.update({c.ID: c for c in [C06, C07, C10, C11, C12]})
+
+
+import itertools as _it
+
+
+def certify_subset(prop, rdir, out, stats, limit):
+    """Discharges the lang_equiv hypothesis of the rule theorems for a subset of the explored
+    configurations: their compiled automata get C02 certificates (Qed-checked)."""
+    jf = os.path.join(rdir, 'scan.json')
+    if not os.path.exists(jf):
+        return
+    jobs = json.load(open(jf))['jobs']
+    seen, progs = set(), []
+    for j in jobs:
+        h = canon_hash(j['modes'])
+        if h in seen or j.get('simple'):
+            continue
+        # outside the theorems' domain (known findings D8, D9): duplicate token types in a mode, types >= 2^32
+        if any(len(set(q['t'] for q in m['patterns'])) != len(m['patterns']) or any(q['t'] >= 2 ** 32 for q in m['patterns'])
+               for m in j['modes']):
+            continue
+        seen.add(h)
+        progs.append({'name': 'p%d' % len(progs), 'modes': j['modes'], 'inputs': []})
+        if len(progs) >= limit:
+            break
+    cert = C02()
+    cert.ID = prop.ID
+    cdir = os.path.join(rdir, 'certs')
+    os.makedirs(cdir, exist_ok=True)
+    cs = cert.explore(None, 'quick', cdir, out, programs=progs)
+    stats['lang_equiv_certificates_generated'] = cs.get('certificates_generated', 0)
+    stats['lang_equiv_certificates_checked_by_kernel'] = cs.get('certificates_checked_by_kernel', 0)
+    stats['lang_equiv_programs'] = cs.get('programs', 0)
+
+
+class C01(ScanProperty):
+    ID = 'C01'
+    THEOREMS = [('Properties.C01', ['C01_longest_match_first_pattern', 'C01_priority_is_pattern_index', 'C01_stream_is_iterated_rule',
+                                    'C01_skip_one_character', 'C01_lang_equiv_from_certificate', 'C01_simple_builder_types',
+                                    'C01_nonvacuous'])]
+    COQ_TARGETS = ['Properties/C01.vo']
+    CERTS = {'quick': 40, 'thorough': 600}
+
+    def explore(self, rng, tier, rdir, out, replay=None):
+        stats = ScanProperty.explore(self, rng, tier, rdir, out, replay)
+        if not replay:
+            certify_subset(self, rdir, out, stats, self.CERTS[tier])
+        return stats
+
+    ASSUMPTIONS = ['distinct token types inside the mode (D8), token types < 2^32 (D9)',
+                   'a pattern leaf denotes the set its one-pattern scanner matches (C08)']
+    RULE = ('modes WITHOUT lookaheads: 1..6 patterns from the dense 3-letter grammar and from the full grammar (overlapping '
+            'languages and classes, nullable patterns, multi-byte characters), every priority order for <= 3 patterns, arbitrary '
+            'token-type numbers, add_patterns (token type = index) in every 5th case; inputs of 0..16 characters incl. characters no '
+            'pattern matches; plain token streams (also from a start offset) are judged by the declarative rule on the parsed ASTs '
+            '(check_stream / spec_tokens), histories by the specification-driven iterator; non-trivial = distinct case with >= 2 '
+            'patterns and >= 2 tokens')
+    N = {'quick': 400, 'thorough': 8000}
+
+    def __init__(self):
+        self.pending = []
+
+    def gen_case(self, rng, i):
+        if self.pending:
+            return self.pending.pop()
+        if i % 3 == 0:
+            modes = gen.gen_config(rng, nmodes=1, la_prob=0.0, trans=False, depth=rng.randint(1, 3), max_pat=6)
+            inp = gen.gen_input(rng, modes)
+        else:
+            alpha = gen.pick_alpha(rng)
+            modes = [gen.gen_small_mode(rng, 'M0', alpha, rng.randint(1, 6), 0.0)]
+            inp = gen.gen_small_input(rng, alpha, maxlen=16, noise=0.15)
+        ops = gen.all_next(inp)
+        if rng.random() < 0.2:
+            ops = [['set_offset', rng.choice(gen.boundaries(inp))]] + ops
+        case = {'modes': modes, 'input': inp, 'ops': ops}
+        if i % 5 == 4:
+            for k, p in enumerate(modes[0]['patterns']):
+                p['t'] = k
+            case['simple'] = True
+        pats = modes[0]['patterns']
+        if 2 <= len(pats) <= 3 and not case.get('simple') and i % 4 == 1:
+            # all priority orders of this pattern set on the same input
+            for perm in list(_it.permutations(pats))[1:]:
+                self.pending.append({'modes': [{'name': 'M0', 'patterns': list(perm), 'transitions': []}], 'input': inp, 'ops': ops})
+        return case
+
+    def nontrivial(self, case, res):
+        return len(case['modes'][0]['patterns']) >= 2 and len(_scan.stream_of(res.get('outs', []))) >= 2
+
+
+class C04(ScanProperty):
+    ID = 'C04'
+    THEOREMS = [('Properties.C04', ['C04_reported_token_is_gated', 'C04_completeness', 'C04_end_of_input', 'C04_rest_is_rescanned',
+                                    'C04_any_offset'])]
+    COQ_TARGETS = ['Properties/C04.vo']
+    CERTS = {'quick': 40, 'thorough': 600}
+
+    def explore(self, rng, tier, rdir, out, replay=None):
+        stats = ScanProperty.explore(self, rng, tier, rdir, out, replay)
+        if not replay:
+            certify_subset(self, rdir, out, stats, self.CERTS[tier])
+        return stats
+
+    ASSUMPTIONS = C01.ASSUMPTIONS + ['lookahead patterns cannot match the empty string']
+    RULE = ('modes mixing patterns with positive, negative and no lookahead (non-nullable lookahead patterns), 1..5 patterns, mode '
+            'graphs with transitions in a third of the cases; every scan start offset on a character boundary via '
+            'with_offset/set_offset; plain streams judged by check_stream on the parsed ASTs (every token a candidate with '
+            'satisfied lookahead of maximal extent, no candidate at skipped positions); non-trivial = distinct case where a '
+            'pattern with lookahead was reported or its lookahead rejected a match (the stream differs from the stream of the '
+            'same mode without lookaheads is not measured; counted: >= 1 lookahead and >= 1 token)')
+    N = {'quick': 400, 'thorough': 8000}
+
+    def gen_case(self, rng, i):
+        alpha = gen.pick_alpha(rng)
+        nm = 1 if i % 3 else rng.randint(1, 3)
+        modes = [gen.gen_small_mode(rng, 'M%d' % k, alpha, rng.randint(1, 5), 0.5, min_la=1) for k in range(nm)]
+        if nm > 1:
+            gen.add_transitions(rng, modes)
+        inp = gen.gen_small_input(rng, alpha, maxlen=14, noise=0.15)
+        ops = gen.all_next(inp)
+        bs = gen.boundaries(inp)
+        r = rng.random()
+        if r < 0.6:
+            ops = [['set_offset', rng.choice(bs)]] + ops
+        elif r < 0.7:
+            ops = [['set_offset', bs[-1] + 3]] + ops
+        return {'modes': modes, 'input': inp, 'ops': ops}
+
+    def extra_cases(self):
+        # end-of-input rule: positive lookahead fails, negative holds
+        cs = []
+        for pos in (True, False):
+            m = [{'name': 'M', 'patterns': [{'p': 'a', 't': 1, 'la': {'pos': pos, 'p': 'b'}}, {'p': 'b', 't': 2}], 'transitions': []}]
+            for inp in ['a', 'ab', 'aab', 'ba', 'aé', 'éa']:
+                cs.append({'modes': m, 'input': inp, 'ops': gen.all_next(inp)})
+        return cs
+
+    def nontrivial(self, case, res):
+        has_la = any(p.get('la') for m in case['modes'] for p in m['patterns'])
+        return has_la and len(_scan.stream_of(res.get('outs', []))) >= 1
+
+
+def pos_spec(data, o):
+    o = min(o, len(data))
+    line = 1 + data[:o].count(b'\n')
+    ls = data.rfind(b'\n', 0, o) + 1
+    return [line, o - ls + 1]
+
+
+def pos_allowed(data, o):
+    al = [pos_spec(data, o)]
+    if 0 < o <= len(data) and data[o - 1:o] == b'\n':
+        # the column after the line break, on the line of the break
+        prev = pos_spec(data, o - 1)
+        al.append([prev[0], prev[1] + 1])
+    return al
+
+
+class C09(ScanProperty):
+    ID = 'C09'
+    THEOREMS = []
+    COQ_TARGETS = []
+    ASSUMPTIONS = ['set_offset only to already scanned offsets (the property\'s quantifier); histories that reset beyond the frontier '
+                   'are still compared with the model but not judged by the position oracle']
+    RULE = ('inputs with empty lines, trailing newline, \\r\\n, multi-byte and unmatched characters; WithPositions histories of '
+            'next / set_offset (mostly to already scanned boundaries) / exhaustion / position queries; every delivered start/end '
+            'position and every position(o) for o below the frontier is judged by an independent oracle (1 + number of \\n before o, '
+            'byte column) computed from the input text; non-trivial = distinct in-domain case with >= 2 lines touched and >= 1 '
+            'reset or exhaustion followed by a position check')
+    N = {'quick': 400, 'thorough': 8000}
+
+    def gen_case(self, rng, i):
+        alpha = rng.choice([('a', 'b', '\n'), ('a', '\n', 'é'), ('a', 'b', '\n'), ('\r', '\n', 'a')])
+        modes = [gen.gen_small_mode(rng, 'M0', alpha, rng.randint(1, 4), 0.15)]
+        if rng.random() < 0.5:
+            modes[0]['patterns'].append({'p': '\\n', 't': 55})
+        n = rng.randint(0, 14)
+        inp = ''.join(rng.choice(alpha + ('\n',)) if rng.random() > 0.12 else rng.choice(['-', '€', '😀']) for _ in range(n))
+        if rng.random() < 0.3:
+            inp += '\n'
+        bs = gen.boundaries(inp)
+        ops = []
+        for _ in range(rng.randint(3, 16)):
+            r = rng.random()
+            if r < 0.55:
+                ops.append(['nextpos'])
+            elif r < 0.7:
+                ops.append(['set_offset', rng.choice(bs)])
+            elif r < 0.95:
+                ops.append(['position', rng.choice(bs) if rng.random() < 0.9 else rng.randint(0, bs[-1] + 2)])
+            else:
+                ops.append(['current_mode'])
+        if rng.random() < 0.5:
+            ops += [['nextpos']] * (len(inp) + 1) + [['position', rng.choice(bs)], ['position', bs[-1]]]
+        return {'modes': modes, 'input': inp, 'ops': ops, 'with_positions': True}
+
+    def judge(self, case, res):
+        """Returns (in_domain, violation text or None, interesting)."""
+        data = case['input'].encode('utf-8')
+        F = 0
+        ok_domain = True
+        checks = 0
+        reset_or_end = False
+        for o, out in zip(case['ops'], res.get('outs', [])):
+            if out == [PANIC]:
+                return ok_domain, 'panic', False
+            if o[0] == 'nextpos':
+                if out and out[0] == 1:
+                    t, s, e, l1, c1, l2, c2 = out[1:8]
+                    F = max(F, e)
+                    if ok_domain:
+                        if [l1, c1] != pos_spec(data, s):
+                            return True, 'start position of token %s is %s, expected %s' % ([t, s, e], [l1, c1], pos_spec(data, s)), False
+                        if [l2, c2] not in pos_allowed(data, e):
+                            return True, 'end position of token %s is %s, expected one of %s' % ([t, s, e], [l2, c2], pos_allowed(data, e)), False
+                        checks += 1
+                else:
+                    F = len(data)
+                    reset_or_end = True
+            elif o[0] == 'set_offset':
+                tgt = min(o[1], len(data))
+                if tgt > F:
+                    ok_domain = False
+                reset_or_end = True
+            elif o[0] == 'position':
+                if ok_domain and o[1] <= F:
+                    if out not in pos_allowed(data, o[1]) or (o[1] < F and out != pos_spec(data, o[1]) and not (data[o[1] - 1:o[1]] == b'\n')):
+                        return True, 'position(%d) is %s, expected %s' % (o[1], out, pos_allowed(data, o[1])), False
+                    checks += 1
+        return ok_domain, None, (ok_domain and checks > 0 and reset_or_end and data.count(b'\n') >= 1)
+
+    def nontrivial(self, case, res):
+        return self.judge(case, res)[2]
+
+    def explore(self, rng, tier, rdir, out, replay=None):
+        stats = ScanProperty.explore(self, rng, tier, rdir, out, replay)
+        # the independent position oracle on the implementation's outputs
+        jf = os.path.join(rdir, 'scan.json')
+        rf = os.path.join(rdir, 'scan.results.jsonl')
+        jobs = json.load(open(jf))['jobs']
+        results = [json.loads(l) for l in open(rf)]
+        judged = indom = 0
+        for j, r in zip(jobs, results):
+            if r.get('build') != 'ok' or not j.get('with_positions'):
+                continue
+            case = {'modes': j['modes'], 'input': j['input'], 'ops': j['ops'], 'with_positions': True}
+            dom, viol, _ = self.judge(case, r)
+            judged += 1
+            indom += 1 if dom else 0
+            if viol:
+                out.violations.append({'property': 'C09', 'what': 'position oracle: ' + viol, 'case': case, 'impl': r['outs']})
+        stats['position_oracle_cases'] = judged
+        stats['in_domain_cases'] = indom
+        return stats
+
+
+ALL.update({c.ID: c for c in [C01, C04, C09]})
